@@ -158,25 +158,28 @@ Record hst := mkH {
   inc : bool; pol : policy; crypto : N; lenia : nat;
   dvalid : bool; didx : nat; encr : bool;                  (* EncryptionInfo: decrypt valid, next decrypt index, is_encrypted *)
   dl : option N; extp : bool; exti : bool; bfe : bool;     (* m_download, peer supports ext, is_initial_handshake, m_bitfield.empty() *)
-  recog : bool; aok : bool; wlog : list wev }.             (* ghost: peer key/handshake recognised; all consumed cells cell_ok; writes *)
+  recog : bool; aok : bool; wlog : list wev;               (* ghost: peer key/handshake recognised; all consumed cells cell_ok; writes *)
+  wint : bool; wbf : bool; rdone : bool }.                 (* in the poll's write set; m_writePos == bitfield size; m_readDone *)
 
 Definition remaining s := length (buf s).
 Definition endp s := pos s + length (buf s).
 
-Definition set_st s x := mkH x (pos s) (buf s) (rpos s) (inc s) (pol s) (crypto s) (lenia s) (dvalid s) (didx s) (encr s) (dl s) (extp s) (exti s) (bfe s) (recog s) (aok s) (wlog s).
-Definition set_win s p b := mkH (st s) p b (rpos s) (inc s) (pol s) (crypto s) (lenia s) (dvalid s) (didx s) (encr s) (dl s) (extp s) (exti s) (bfe s) (recog s) (aok s) (wlog s).
-Definition set_rpos s x := mkH (st s) (pos s) (buf s) x (inc s) (pol s) (crypto s) (lenia s) (dvalid s) (didx s) (encr s) (dl s) (extp s) (exti s) (bfe s) (recog s) (aok s) (wlog s).
-Definition set_crypto s x := mkH (st s) (pos s) (buf s) (rpos s) (inc s) (pol s) x (lenia s) (dvalid s) (didx s) (encr s) (dl s) (extp s) (exti s) (bfe s) (recog s) (aok s) (wlog s).
-Definition set_lenia s x := mkH (st s) (pos s) (buf s) (rpos s) (inc s) (pol s) (crypto s) x (dvalid s) (didx s) (encr s) (dl s) (extp s) (exti s) (bfe s) (recog s) (aok s) (wlog s).
-Definition set_dec s v i e := mkH (st s) (pos s) (buf s) (rpos s) (inc s) (pol s) (crypto s) (lenia s) v i e (dl s) (extp s) (exti s) (bfe s) (recog s) (aok s) (wlog s).
-Definition set_dl s x := mkH (st s) (pos s) (buf s) (rpos s) (inc s) (pol s) (crypto s) (lenia s) (dvalid s) (didx s) (encr s) x (extp s) (exti s) (bfe s) (recog s) (aok s) (wlog s).
-Definition set_extp s x := mkH (st s) (pos s) (buf s) (rpos s) (inc s) (pol s) (crypto s) (lenia s) (dvalid s) (didx s) (encr s) (dl s) x (exti s) (bfe s) (recog s) (aok s) (wlog s).
-Definition set_exti s x := mkH (st s) (pos s) (buf s) (rpos s) (inc s) (pol s) (crypto s) (lenia s) (dvalid s) (didx s) (encr s) (dl s) (extp s) x (bfe s) (recog s) (aok s) (wlog s).
-Definition set_bfe s x := mkH (st s) (pos s) (buf s) (rpos s) (inc s) (pol s) (crypto s) (lenia s) (dvalid s) (didx s) (encr s) (dl s) (extp s) (exti s) x (recog s) (aok s) (wlog s).
-Definition set_aok s x := mkH (st s) (pos s) (buf s) (rpos s) (inc s) (pol s) (crypto s) (lenia s) (dvalid s) (didx s) (encr s) (dl s) (extp s) (exti s) (bfe s) (recog s) x (wlog s).
-Definition add_w s w := mkH (st s) (pos s) (buf s) (rpos s) (inc s) (pol s) (crypto s) (lenia s) (dvalid s) (didx s) (encr s) (dl s) (extp s) (exti s) (bfe s) (recog s) (aok s) (wlog s ++ [w]).
+Definition set_st s x := mkH x (pos s) (buf s) (rpos s) (inc s) (pol s) (crypto s) (lenia s) (dvalid s) (didx s) (encr s) (dl s) (extp s) (exti s) (bfe s) (recog s) (aok s) (wlog s) (wint s) (wbf s) (rdone s).
+Definition set_win s p b := mkH (st s) p b (rpos s) (inc s) (pol s) (crypto s) (lenia s) (dvalid s) (didx s) (encr s) (dl s) (extp s) (exti s) (bfe s) (recog s) (aok s) (wlog s) (wint s) (wbf s) (rdone s).
+Definition set_rpos s x := mkH (st s) (pos s) (buf s) x (inc s) (pol s) (crypto s) (lenia s) (dvalid s) (didx s) (encr s) (dl s) (extp s) (exti s) (bfe s) (recog s) (aok s) (wlog s) (wint s) (wbf s) (rdone s).
+Definition set_crypto s x := mkH (st s) (pos s) (buf s) (rpos s) (inc s) (pol s) x (lenia s) (dvalid s) (didx s) (encr s) (dl s) (extp s) (exti s) (bfe s) (recog s) (aok s) (wlog s) (wint s) (wbf s) (rdone s).
+Definition set_lenia s x := mkH (st s) (pos s) (buf s) (rpos s) (inc s) (pol s) (crypto s) x (dvalid s) (didx s) (encr s) (dl s) (extp s) (exti s) (bfe s) (recog s) (aok s) (wlog s) (wint s) (wbf s) (rdone s).
+Definition set_dec s v i e := mkH (st s) (pos s) (buf s) (rpos s) (inc s) (pol s) (crypto s) (lenia s) v i e (dl s) (extp s) (exti s) (bfe s) (recog s) (aok s) (wlog s) (wint s) (wbf s) (rdone s).
+Definition set_dl s x := mkH (st s) (pos s) (buf s) (rpos s) (inc s) (pol s) (crypto s) (lenia s) (dvalid s) (didx s) (encr s) x (extp s) (exti s) (bfe s) (recog s) (aok s) (wlog s) (wint s) (wbf s) (rdone s).
+Definition set_extp s x := mkH (st s) (pos s) (buf s) (rpos s) (inc s) (pol s) (crypto s) (lenia s) (dvalid s) (didx s) (encr s) (dl s) x (exti s) (bfe s) (recog s) (aok s) (wlog s) (wint s) (wbf s) (rdone s).
+Definition set_exti s x := mkH (st s) (pos s) (buf s) (rpos s) (inc s) (pol s) (crypto s) (lenia s) (dvalid s) (didx s) (encr s) (dl s) (extp s) x (bfe s) (recog s) (aok s) (wlog s) (wint s) (wbf s) (rdone s).
+Definition set_bfe s x := mkH (st s) (pos s) (buf s) (rpos s) (inc s) (pol s) (crypto s) (lenia s) (dvalid s) (didx s) (encr s) (dl s) (extp s) (exti s) x (recog s) (aok s) (wlog s) (wint s) (wbf s) (rdone s).
+Definition set_aok s x := mkH (st s) (pos s) (buf s) (rpos s) (inc s) (pol s) (crypto s) (lenia s) (dvalid s) (didx s) (encr s) (dl s) (extp s) (exti s) (bfe s) (recog s) x (wlog s) (wint s) (wbf s) (rdone s).
+Definition add_w s w := mkH (st s) (pos s) (buf s) (rpos s) (inc s) (pol s) (crypto s) (lenia s) (dvalid s) (didx s) (encr s) (dl s) (extp s) (exti s) (bfe s) (recog s) (aok s) (wlog s ++ [w]) (wint s) (wbf s) (rdone s).
 (* policy().set_retry_disabled() at the two recognition points; the ghost flag is set with it *)
-Definition mark_recog s := mkH (st s) (pos s) (buf s) (rpos s) (inc s) (set_retry (pol s) Prefer) (crypto s) (lenia s) (dvalid s) (didx s) (encr s) (dl s) (extp s) (exti s) (bfe s) true (aok s) (wlog s).
+Definition mark_recog s := mkH (st s) (pos s) (buf s) (rpos s) (inc s) (set_retry (pol s) Prefer) (crypto s) (lenia s) (dvalid s) (didx s) (encr s) (dl s) (extp s) (exti s) (bfe s) true (aok s) (wlog s) (wint s) (wbf s) (rdone s).
+
+Definition set_w s i b r := mkH (st s) (pos s) (buf s) (rpos s) (inc s) (pol s) (crypto s) (lenia s) (dvalid s) (didx s) (encr s) (dl s) (extp s) (exti s) (bfe s) (recog s) (aok s) (wlog s) i b r.
 
 Definition add_cells s (c : list cell) := set_win s (pos s) (buf s ++ c).
 (* EncryptionInfo::decrypt(position + a, n) *)
@@ -239,7 +242,7 @@ Definition act_key s k eof : aout :=
             if inc s then ANext (set_st s5 SYNC) k2
             else match crypto_provide (pol s5) with
                  | None => AInt s5
-                 | Some p => ANext (set_st (add_w s5 (WProvide p)) SYNC) k2
+                 | Some p => ANext (set_st (add_w (add_w s5 (WProvide p)) (WHs true)) SYNC) k2
                  end
       end
   end.
@@ -379,7 +382,8 @@ Definition act_peer s k eof : aout :=
     if list_eqb (firstn 20 (vals s1)) own_id then AThr s1 7 5
     else
       let s2 := consume 20 s1 in
-      ANext (set_st (if extp s2 then add_w s2 (WExt (encr s2)) else s2) MESSAGE) k1
+      (* prepare_bitfield (the local bitfield is not empty: m_writePos = 0) and insert_write *)
+      ANext (set_st (set_w (if extp s2 then add_w s2 (WExt (encr s2)) else s2) true false false) MESSAGE) k1
   end.
 
 (* tail of the READ_BITFIELD/READ_EXT/READ_PORT case group *)
@@ -458,6 +462,7 @@ Definition act_port s k eof : aout :=
          end.
 
 Definition act (bfb : nat) s k eof : aout :=
+  if rdone s then ABrk s k else      (* read_done() removed the handshake from the read set *)
   match st s with
   | KEY => act_key s k eof | SYNC => act_sync s k eof | SKEY => act_skey s k eof
   | NEGOT => act_negot s k eof | PAD => act_pad s k eof | IA => act_ia s k eof
@@ -474,16 +479,35 @@ Inductive out :=
 | Crash (s : hst)                      (* internal_error escapes *)
 | OutOfFuel.
 
+(* Handshake::event_write as far as it matters for the read side: the socket is writable and takes
+   everything. Called by the poll after event_read returned, when the handshake is in the write set
+   (from read_peer on). States READ_MESSAGE/READ_BITFIELD/READ_EXT write the buffered data and the
+   bitfield (write_bitfield) and then leave the write set until reading is done; any other state
+   (READ_PORT is not in that case list) only flushes the buffer and leaves the write set. *)
+Definition ewrite s : hst :=
+  if wint s then
+    match st s with
+    | MESSAGE | BITFIELD | EXT => set_w s false true (rdone s)
+    | _ => set_w s false (wbf s) (rdone s)
+    end
+  else s.
+
 Fixpoint event_read (fuel : nat) (bfb : nat) s k eof : out :=
   match fuel with
   | O => OutOfFuel
   | S f =>
     match act bfb s k eof with
     | ANext s' k' => event_read f bfb s' k' eof
-    | ABrk s' k' => Cont s' k'
+    | ABrk s' k' => Cont (ewrite s') k'
     | AThr s' t e => Failed s' t e
     | AInt s' => Crash s'
-    | ASuc s' k' => if PCBBUF <? remaining s' then Crash s' else Done s' k'   (* receive_succeeded *)
+    | ASuc s' k' =>
+      (* read_done(): succeeds at once if the bitfield is out (prepare_post_handshake -> write_done),
+         or in the event_write that follows if the handshake is still in the write set; otherwise
+         nothing will ever call it again (until the 120 s timeout) *)
+      if wbf s' || wint s' then
+        (if PCBBUF <? remaining s' then Crash s' else Done s' k')   (* receive_succeeded *)
+      else Cont (set_w s' false false true) k'
     end
   end.
 Definition rank (x : hstate) : nat :=
@@ -509,15 +533,15 @@ Definition feed (bfb : nat) s (k : list cell) : out :=
 Definition feed_close (bfb : nat) s (k : list cell) : out := event_read (fuel_of s k) bfb s k true.
 
 Definition init_in (p : policy) : hst :=
-  mkH (if allow_enc_hs p then KEY else INFO) 0 [] 0 true p 0 0 false 0 false None false true true false true [].
+  mkH (if allow_enc_hs p then KEY else INFO) 0 [] 0 true p 0 0 false 0 false None false true true false true [] false false false.
 (* Handshake::event_write, case CONNECTING (socket connected, no proxy) *)
 Definition init_out (p : policy) : hst :=
   if prefer_enc_hs p then
     mkH KEY 0 [] 0 false (if negb (retrying p) && allow_plain_hs p then set_retry p Deny else p)
-        0 0 false 0 false (Some 1%N) false true true false true [WKeyPad]
+        0 0 false 0 false (Some 1%N) false true true false true [WKeyPad] false false false
   else
     mkH INFO 0 [] 0 false (if negb (retrying p) && allow_enc_hs p then set_retry p Require else p)
-        0 0 false 0 false (Some 1%N) false true true false true [WHs false].
+        0 0 false 0 false (Some 1%N) false true true false true [WHs false] false false false.
 
 (* ---------------------------------------------------------------- a protocol-following remote peer *)
 Definition clr (l : list N) : list cell := map (fun v => mkCell (Clr v) []) l.
